@@ -238,6 +238,7 @@ def run(ctx):
         if len(ctx.samples) < 5 and rng.random() < 0.002:
             ctx.sample({"seed": kind, "fault": fclass, "beside_valid_sources": len(cs), "rc": r.rc, "stderr_head": r.err[:120]})
     ctx.extra["asan_reports_by_signature"] = asan_sigs
+    run_miri(ctx)
     # A sanitizer report halts the process, so whatever the program would have done after a *known* report is
     # hidden in that run. Re-run those cases on the release build and apply the process-status / hang /
     # undisturbed-sources oracles there.
@@ -297,3 +298,54 @@ def run(ctx):
                 fam = "fixedstruct-string-accessor" if any(f[1] == b"fixedstruct.rs" for f in fr[:6]) and b"strlen" in r.err else (fr[0][0].decode("latin-1") if fr else "?")
                 ctx.violation("C07|valgrind|%s|%s" % ((m.group(1).decode() if m else "error").split(" of size")[0], fam), "valgrind memcheck error on %s of %s" % (j[3], j[2]),
                               src_dir=j[1], files={"valgrind.log": r.err[-20000:]}, info={"argv": r.argv})
+
+
+# --------------------------------------------------------------------------
+# Miri: the unsafe record decoding, interpreted
+
+MIRI_UB = re.compile(r"error: Undefined Behavior: (.+)")
+MIRI_FRAME = re.compile(r"\d+: (s4lib::\S+)")
+
+
+def run_miri(ctx):
+    """Interprets the unsafe decoding of all 16 record layouts (pointer casts, read_unaligned, CStr::from_ptr) under Miri on
+    in-memory records at every (mis)alignment: NUL-terminated, full-width and random fills; one (mode, layout, fill) per process
+    so one report does not hide the rest."""
+    argv, env, cwd = core.miri_cmd()
+    rng = ctx.rng
+    jobs = []
+    count = ctx.pick(12, 60)
+    for ti in range(16):
+        for mode in ("decode", "score"):
+            for fill in ("nul", "full", "random"):
+                jobs.append((ti, mode, fill, rng.randint(0, 1 << 30)))
+
+    def one(j):
+        ti, mode, fill, seed = j
+        return subprocess.run(argv + [mode, str(ti), str(seed), str(count), fill], cwd=cwd, env=env, stdout=subprocess.PIPE, stderr=subprocess.PIPE, timeout=1800)
+    for j, p in zip(jobs, core.pmap(one, jobs)):
+        ti, mode, fill, seed = j
+        err = p.stderr.decode("utf-8", "replace")
+        out = p.stdout.decode("utf-8", "replace").strip().splitlines()
+        ctx.count("miri processes")
+        if p.returncode == 0 and out:
+            ctx.evaluated(count, ("miri", ti, mode, fill))
+            ctx.count("records interpreted under Miri", count)
+            if len(ctx.samples) < 8 and mode == "decode" and fill == "random" and ti % 5 == 0:
+                ctx.sample({"miri": out[-1]})
+            continue
+        m = MIRI_UB.search(err)
+        if not m:
+            ctx.inconc("miri process failed without a UB report (rc %s)" % p.returncode)
+            continue
+        ctx.evaluated(count, ("miri", ti, mode, fill, "ub"))
+        msg = re.sub(r"alloc\d+|0x[0-9a-f]+|\d+ bytes?|offset \d+|size \d+", "N", m.group(1))[:120]
+        frames = [f.split("::")[-1] for f in MIRI_FRAME.findall(err)]
+        fam = "?"
+        if "score_fixedstruct" in frames and ("from_ptr" in err or "strlen" in err):
+            fam = "fixedstruct-string-accessor-CStr::from_ptr<-score_fixedstruct"
+            msg = "out-of-bounds-or-dangling-read"
+        elif frames:
+            fam = frames[0]
+        ctx.violation("C07|miri|%s|%s" % (msg, fam), "Miri: %s (layout #%d, mode %s, fill %s)" % (m.group(1)[:200], ti, mode, fill),
+                      files={"miri.stderr": err[-6000:].encode()}, info={"argv": argv + [mode, str(ti), str(seed), str(count), fill]})
